@@ -569,6 +569,27 @@ def gen(repo):
                 f"def make_calls : List String := [{', '.join(json.dumps(x) for x in b)}]")
     emit("structure", structure)
 
+    # ---- further fragments: tools/t2_fragments/*.py, each `def fragments(api)` calling api.emit(name, thunk)
+    class Api:
+        pass
+    api = Api()
+    api.Tr, api.Untranslatable, api.find_func, api.strip_doc = Tr, Untranslatable, find_func, strip_doc
+    api.returns_chain, api.raise_condition, api.parse, api.emit, api.repo = returns_chain, raise_condition, parse, emit, repo
+    api.trees = dict(util=util, main=main, image_base=ibase)
+    fdir = os.path.join(os.path.dirname(os.path.abspath(__file__)), "t2_fragments")
+    for fn in sorted(os.listdir(fdir)) if os.path.isdir(fdir) else []:
+        if fn.endswith(".py") and not fn.startswith("_"):
+            import importlib.util
+            spec = importlib.util.spec_from_file_location("t2_" + fn[:-3], os.path.join(fdir, fn))
+            mod = importlib.util.module_from_spec(spec)
+            try:
+                spec.loader.exec_module(mod)
+                out.append(f"\n-- fragments of tools/t2_fragments/{fn}")
+                mod.fragments(api)
+            except Exception as e:  # noqa
+                out.append(f"-- t2_fragments/{fn}: UNTRANSLATABLE (plugin error {type(e).__name__}: {e})")
+                status["plugin:" + fn] = f"untranslatable: {type(e).__name__}: {e}"
+
     out.append("\nend QR.Gen.Code")
     return "\n".join(out) + "\n", status
 
